@@ -255,6 +255,8 @@ class Ctx:
             cov.setdefault("states", self.tlc_states)
             cov.setdefault("transitions", self.tlc_transitions)
             cov.setdefault("traces_validated_against_impl", 0)
+        if "exhaustive" in cov and not isinstance(cov["exhaustive"], bool):
+            cov["exhaustive_scope"] = cov.pop("exhaustive")
         cov.setdefault("tlc_runs", self.tlc_runs)
         cov.setdefault("known_findings_hit", self.known_hits)
         ev = {
